@@ -151,6 +151,7 @@ type HarnessSpec struct {
 	VerdMs  int            `json:"verd_ms,omitempty"`
 	MaxPath int            `json:"max_paths,omitempty"`
 	Note    string         `json:"note,omitempty"`
+	Solver  string         `json:"solver,omitempty"`
 	// CasePick restricts a vhCase variable to a subset: the listed values plus `random` seeded picks (VERIF_SEED)
 	CasePick map[string]CasePick `json:"case_pick,omitempty"`
 	// Reach tags that must be witnessed by at least one completed path (vacuity guard)
@@ -254,7 +255,7 @@ func runHarness(l *Loaded, spec HarnessSpec, workers int, verbose bool, dumpDir 
 					globalSem <- true
 					defer func() { <-globalSem }()
 					cfg := Config{Unwind: spec.Unwind, Cases: j.cases, Verbose: verbose, FeasTimeoutMs: spec.FeasMs, VerdTimeoutMs: spec.VerdMs,
-						MaxPaths: spec.MaxPath, CaseName: caseName(j.cases), DumpQueries: dumpDir, Params: spec.Params}
+						MaxPaths: spec.MaxPath, CaseName: caseName(j.cases), DumpQueries: dumpDir, Params: spec.Params, Solver: spec.Solver}
 					c := NewCtx(l.prog, cfg)
 					defer c.Close()
 					st := &State{heap: map[int]Value{}}
